@@ -13,7 +13,7 @@ var propOrder = []string{"C01", "C02", "C03", "C04", "C05", "C06", "C07", "C08",
 
 var props = map[string]*PropDef{
 	"C01": {
-		Rules:      []string{"MATRIX", "KIND-1", "DEPTH-1", "MAPCACHE-1", "TXN-1", "CASE-SYM", "NUMSTATE-1", "TXN-2", "TXN-3"},
+		Rules:      []string{"MATRIX", "KIND-1", "DEPTH-1", "MAPCACHE-1", "TXN-1", "CASE-SYM", "NUMSTATE-1", "TXN-2", "TXN-3", "PAIR-1", "FULL-1", "SURR-1", "EOF-1"},
 		Decided:    "the sibling recognisers (token path, value path, raw-value path) agree on which checks exist and which option controls them (duplicate names under exactly AllowDuplicateNames, UTF-8 validation unless exactly AllowInvalidUTF8, string-only names, exhaustive kind dispatch with failing defaults, the RFC 8259 start-byte table); the depth limit is the same in all six guards and each guard is evaluated on every path; io.EOF is only produced at depth 1; the duplicate-name set stays complete when it switches to a map; hexadecimal/exponent letters are matched case-insensitively; the resumable number scanner's resume states match what it consumed.",
 		NotDecided: "that each lexical recogniser accepts exactly its RFC production (index arithmetic of ConsumeString/ConsumeNumber beyond the structural facts above).",
 		Technique:  "sibling-implementation matrix over type-checked syntax; constant/table evaluation; path-sensitive go/cfg dataflow for guards",
@@ -25,19 +25,19 @@ var props = map[string]*PropDef{
 		Technique:  "path-sensitive go/cfg dataflow over finite atoms; guard dominance; sink/producer audit",
 	},
 	"C03": {
-		Rules:      []string{"ANYPATH-1", "INTERN-1", "NUMCONV-1", "CASE-SYM", "NS-1", "STALE-2", "POOL-2", "VERB-1", "GLOBAL-2"},
+		Rules:      []string{"ANYPATH-1", "INTERN-1", "NUMCONV-1", "CASE-SYM", "NS-1", "STALE-2", "POOL-2", "VERB-1", "GLOBAL-2", "PAIR-1", "SURR-1"},
 		Decided:    "the untyped fast routes are entered only under their documented guards and use the same primitives as the generic route (strconv.ParseFloat with 64 bits for every decoded float, makeString for strings, own duplicate check for objects); the string cache can only return a string equal to the input; \\u escapes are case-insensitive; the any-applicability marker of caller functions is accumulated over joined lists.",
 		NotDecided: "unescaping and float rounding themselves (value-level), equality of the trees produced by the different routes for all inputs.",
 		Technique:  "guard dominance; value-provenance tracing over definitions; path-sensitive equality tracking in makeString",
 	},
 	"C04": {
-		Rules:      []string{"CODEC-1", "FLAGSYM-1", "ALIAS-1", "FIELD-1", "POOL-2"},
+		Rules:      []string{"CODEC-1", "FLAGSYM-1", "ALIAS-1", "FIELD-1", "POOL-2", "FLAGMASK-1"},
 		Decided:    "writer and reader tables agree for every alternative representation: identical accepted format strings, each base16/32/64 encode/decode/len triple bound to one encoding and chosen consistently, same default encoding, same initFormat and base cases for time/duration, same bit size for formatting and parsing; marshal and unmarshal siblings consult the same two-sided options; struct field index paths are not aliased.",
 		NotDecided: "value equality after a round trip, float bits, time arithmetic (all arithmetic on runtime values).",
 		Technique:  "sibling agreement between marshal/unmarshal closures; table evaluation",
 	},
 	"C05": {
-		Rules:      []string{"STALE-1", "TXN-1", "TXN-2", "TXN-3", "NAMES-1", "BUF-1", "PEEK-1", "NUMSTATE-1", "STALE-2", "ERR-1"},
+		Rules:      []string{"STALE-1", "TXN-1", "TXN-2", "TXN-3", "NAMES-1", "BUF-1", "PEEK-1", "NUMSTATE-1", "STALE-2", "ERR-1", "POISON-1", "EOF-1"},
 		Decided:    "no buffer-relative position or alias is used after a call that may refill/move the decode buffer; a failed ReadToken/ReadValue leaves the abstract decoder state untouched and PeekKind/CheckNextValue never advance it (so retrying after a transient read error is sound); names are copied out before the buffer changes; fetch rebases baseOffset/prevEnd/prevStart consistently; the peek cache is consumed exactly once; the resumable number scanner resumes in a state that matches what it consumed.",
 		NotDecided: "equality of token sequences for all read schedules; the arithmetic of the resumable string scanner.",
 		Technique:  "path-sensitive go/cfg dataflow with inter-procedural taint (positions/aliases) and recomputed effect summaries",
@@ -49,7 +49,7 @@ var props = map[string]*PropDef{
 		Technique:  "path-sensitive go/cfg dataflow (atoms: mutated, error nil-ness, namespace validity, name position) with recomputed effect summaries; sibling matrix",
 	},
 	"C07": {
-		Rules:      []string{"NAMES-1", "BUF-1", "STALE-3", "FP-3", "FP-4", "UNWRITE-1", "POOL-4", "UNWRITE-2"},
+		Rules:      []string{"NAMES-1", "BUF-1", "STALE-3", "FP-3", "FP-4", "UNWRITE-1", "POOL-4", "UNWRITE-2", "NILTEST-1"},
 		Decided:    "Flush copies names out before handing off the buffer, adds what the writer accepted to the base offset, never empties the buffer on a write error and drops exactly the accepted bytes, empties it on success; every value fast path and token-level writer consults NeedFlush after committing (there is no final flush); the suffixes that block a flush equal the suffixes that can be unwritten; no foreign write while a local buffer alias is pending; a pooled or Reset encoder never starts on leftover bytes.",
 		NotDecided: "equality of the concatenated output for all buffer sizes and writers.",
 		Technique:  "path-sensitive go/cfg dataflow; table agreement",
@@ -61,19 +61,19 @@ var props = map[string]*PropDef{
 		Technique:  "guard dominance; path-sensitive go/cfg dataflow; sibling matrix",
 	},
 	"C09": {
-		Rules:      []string{"V1-1", "V1-2", "V1-3", "V1-4", "OPT-1", "FLAGSYM-1", "ADDR-1"},
+		Rules:      []string{"V1-1", "V1-2", "V1-3", "V1-4", "OPT-1", "FLAGSYM-1", "ADDR-1", "FULL-1"},
 		Decided:    "every entry from v1 into the v2 API runs under DefaultOptionsV1 (or the explicit legacy set for the syntax-only helpers) and coder option fields are only extended; each v1 default flag has a constructor and is read by the implementation; under legacy error semantics the next value is syntax-checked before the target is touched; the streaming Decoder's offset flags are reset together; the v1 constants are consistent; marshal/unmarshal honour the two-sided legacy options symmetrically.",
 		NotDecided: "behavioural equality with the toolchain's encoding/json (a comparison of executions; static analysis of one side says nothing about the other), e.g. the indentation placeholder arithmetic of v1.Indent.",
 		Technique:  "provenance of option arguments; sibling agreement; path-sensitive must-precede",
 	},
 	"C10": {
-		Rules:      []string{"NUMWIDTH-1", "NUMCONV-1", "CASE-SYM"},
+		Rules:      []string{"NUMWIDTH-1", "NUMCONV-1", "CASE-SYM", "FULL-1"},
 		Decided:    "only the width and routing clauses: every float/integer format or parse call uses the width of the Go type (t.Bits() inside the arshaler factories; a constant 32/64 only where the operand has that width by type; forwarded width parameters), decoded floats come from strconv.ParseFloat, integer targets parse digits only (jsonwire.ParseUint) and compare the magnitude against a bound derived from the width, the unsigned parser sees the whole literal so a minus sign cannot be skipped, and exponent/hex letters are recognised in both cases.",
 		NotDecided: "everything arithmetic: that the shortest decimal is produced, that rounding is correct, that the bounds are exactly 2^(bits-1) and 2^bits-1 (an off-by-one in a bound is invisible to these rules), ECMA-262 layout, Token.Int/Uint/Float saturation and truncation values. These need evaluation or a solver (another technique family).",
 		Technique:  "type-resolved call-site enumeration with argument provenance",
 	},
 	"C11": {
-		Rules:      []string{"TABLE-ESC", "SINK-1", "MATRIX", "OPT-1", "WIDTH-1", "CASE-SYM", "VERB-1"},
+		Rules:      []string{"TABLE-ESC", "SINK-1", "MATRIX", "OPT-1", "WIDTH-1", "CASE-SYM", "VERB-1", "PAIR-1", "SURR-1"},
 		Decided:    "the safety clause (no raw < > & / U+2028 U+2029 under the escape options) as a sink audit: the escape table and the quoting code agree, exactly {<,>,&} depend on EscapeForHTML and {U+2028,U+2029} on EscapeForJS in every quoting path, verbatim copies happen only under !AnyEscape, bytes that skip validation come from reviewed producers, pre-quoted names are emitted only when they need no escaping, every AppendQuote on an output path receives the real flags, index arithmetic follows the rune width.",
 		NotDecided: "losslessness, minimality, one-U+FFFD-per-byte (value-level).",
 		Technique:  "table evaluation; sink/producer audit; guard-set extraction",
@@ -97,37 +97,37 @@ var props = map[string]*PropDef{
 		Technique:  "structural checks and path-sensitive must-follow",
 	},
 	"C15": {
-		Rules:      []string{"FIELD-1", "ALIAS-1", "UNWRITE-2", "UNWRITE-1"},
+		Rules:      []string{"FIELD-1", "ALIAS-1", "UNWRITE-2", "UNWRITE-1", "MONO-1"},
 		Decided:    "each tag option is consumed where documented (omitzero/omitempty/string/format/casing/embed), the dominance sort compares name, depth, explicit-name in that order and keeps only dominant fields, emitted order is declaration order, the unmarshal closure prefers the exact-name index, reports ambiguity and limits ErrUnknownName to RejectUnknownMembers without a fallback, matchFoldedName implements the documented casing rules, field index paths are not aliased.",
 		NotDecided: "the breadth-first search over runtime type graphs and the folding function itself.",
 		Technique:  "structural checks over type-checked syntax",
 	},
 	"C16": {
-		Rules:      []string{"STALE-1", "TXN-2", "NAMES-1", "BUF-1", "FP-2", "PTR-1", "PTR-2", "POS-1"},
+		Rules:      []string{"STALE-1", "TXN-2", "NAMES-1", "BUF-1", "FP-2", "PTR-1", "PTR-2", "POS-1", "POISON-1", "EOF-1"},
 		Decided:    "names used in error pointers are never stale buffer aliases; a rejected call changes no pointer/offset; names are copied out before buffers move and before pointers are built; offset bookkeeping of fetch/Flush; the struct fast path records the name offset; pointer escaping is applied exactly once and the reader/writer escape tables are inverse in RFC 6901 order; after-value errors are only built after a value was consumed.",
 		NotDecided: "that appendStackPointer computes the right pointer for each `where`; the offset arithmetic (pos-n, legacy +len(What)).",
 		Technique:  "path-sensitive go/cfg dataflow; table inversion; append-source audit",
 	},
 	"C17": {
-		Rules:      []string{"PREC-1", "USER-1", "USER-2", "ERR-1", "ANYPATH-1", "ADDR-1"},
+		Rules:      []string{"PREC-1", "USER-1", "USER-2", "ERR-1", "ANYPATH-1", "ADDR-1", "MONO-1", "PUBLISH-1"},
 		Decided:    "method wrappers are installed in the documented precedence order, each falling back to the composition captured right before it; no methods on pointer/interface kinds; default, methods, time are composed in that order; caller functions are scanned in list order with ErrUnsupported fall-through and are consulted at every dispatch; bytes from user code are re-validated; user calls that receive the coder are bracketed by WithinArshalCall and the one-value check, with the ErrUnsupported fall-through only when nothing was touched; the any fast paths respect any-applicable caller functions.",
 		NotDecided: "which method actually runs for a given value (reflection over runtime types).",
 		Technique:  "structural ordering checks; bracket rule; path-sensitive consult-before-dispatch",
 	},
 	"C18": {
-		Rules:      []string{"POOL-1", "POOL-2", "POOL-3", "POOL-4", "GLOBAL-1", "ONCE-1", "DET-1", "INTERN-1", "CYCLE-1", "ESCAPE-1", "STALE-2", "GLOBAL-2"},
+		Rules:      []string{"POOL-1", "POOL-2", "POOL-3", "POOL-4", "GLOBAL-1", "ONCE-1", "DET-1", "INTERN-1", "CYCLE-1", "ESCAPE-1", "STALE-2", "GLOBAL-2", "NILTEST-1", "PUBLISH-1"},
 		Decided:    "pooled coders are released to the matching pool by defer; every field of the resettable coder structures is reset or in the reviewed carry-over table; pooled buffers and the decoder's transient views only leave a call through a copy; coders are never reset onto leftover bytes; package-level state is immutable after init or concurrency-safe and no goroutines are started; lazily initialised arshaler state is read only after once.Do; map iteration order reaches the output only when Deterministic is off (or one entry); the cycle-detection set is emptied by the deferred leave; the string cache returns only equal strings.",
 		NotDecided: "absence of data races in general (only the library's own shared state is audited); byte-identical output under Deterministic when AllowDuplicateNames lets two keys collide.",
 		Technique:  "pairing/escape rules over type-checked syntax; path-sensitive dominance",
 	},
 	"C19": {
-		Rules:      []string{"OPT-1", "OPT-2", "OPT-3", "OPT-4", "OPT-5", "OPT-6", "OPT-7", "V1-1", "GLOBAL-1"},
+		Rules:      []string{"OPT-1", "OPT-2", "OPT-3", "OPT-4", "OPT-5", "OPT-6", "OPT-7", "V1-1", "GLOBAL-1", "FLAGMASK-1"},
 		Decided:    "the flag constants form a consistent bit algebra with the documented v1 defaults; every boolean option constructor is injective and value-faithful; Join and GetOption agree on which flag guards which value field (including the nested *Struct case and the json-injected options); per-call options are saved and restored by defer before any mutation; struct-tag options are restored on every path; one-sided options are only read on their side; v1 entry points pass DefaultOptionsV1; the shared default option sets are never mutated.",
 		NotDecided: "the bit arithmetic of Flags.Join/Set/Get/Clear themselves (five-line bodies; their correctness is arithmetic).",
 		Technique:  "constant-table evaluation; path-sensitive check of constructors and scoping; sibling agreement of type switches",
 	},
 	"C20": {
-		Rules:      []string{"DEPTH-1", "CYCLE-1", "PANIC-1", "TXN-1", "TXN-2", "NAMES-1", "PEEK-1"},
+		Rules:      []string{"DEPTH-1", "CYCLE-1", "PANIC-1", "TXN-1", "TXN-2", "NAMES-1", "PEEK-1", "ERR-1"},
 		Decided:    "the nesting limit is the same (off-by-one included) in all six guards and every guard is evaluated on every path of its function; every marshal recursion either pushes a container first or has a depth-independent cycle check, with visit/leave paired; explicit panics are classified and no function gained panic sites; the state/name bookkeeping whose violation leads to panics (rejected calls, names copied before buffers move) holds.",
 		NotDecided: "implicit panics (index, nil dereference); termination in general (e.g. fetch retries while a reader returns (0, nil)).",
 		Technique:  "path-sensitive go/cfg dataflow; recursion-progress analysis over marshal closures; classified site table",
